@@ -65,6 +65,9 @@ def accepted_seeds(name, **opts):
 # --------------------------------------------------------------------------
 # mutate and repair
 
+SYMBOLS = '+*&@#'
+
+
 def cls(ch):
     if ch in string.digits:
         return string.digits
@@ -98,12 +101,13 @@ def synth(name, v, muts, opts=None):
         return None
     mutated = set()
     for i, c in muts:
-        if i < len(w) and cls(w[i]) and c in cls(w[i]):
+        if i < len(w) and cls(w[i]) and (c in cls(w[i]) or c in SYMBOLS):
             w[i] = c
             mutated.add(i)
     w = ''.join(w)
     if _ok(m, w, opts):
         return w
+    idx = [i for i in idx if cls(w[i])]
     for j in reversed(idx):
         if j in mutated:
             continue
@@ -122,6 +126,88 @@ def synth(name, v, muts, opts=None):
                 if _ok(m, y, opts):
                     return y
     return None
+
+
+def class_sweep(name, nbase=2, classes=(string.ascii_uppercase,), **opts):
+    """Deterministic list of valid numbers covering every (position, character) of the given classes for a few base
+    numbers (each substitution repaired by synth). Reaches per-letter branches such as 'CIF starting with N'."""
+    out = []
+    seen = set()
+    for v in pool(name, **opts)[:nbase]:
+        for i, c in enumerate(v):
+            for al in classes:
+                if c in al:
+                    for c2 in al:
+                        if c2 != c:
+                            w = synth(name, v, [(i, c2)], opts)
+                            if w and w not in seen:
+                                seen.add(w)
+                                out.append(w)
+    return out
+
+
+def symbol_sweep(name, nbase=1, **opts):
+    """Valid numbers that carry one of the symbols + * & @ # at some position (for the few alphabets that admit them)."""
+    m = core.number_modules()[name]
+    out = []
+    seen = set()
+    for v in pool(name, **opts)[:nbase]:
+        for c2 in SYMBOLS:
+            # cheap pre-test: does the format ever admit this symbol at this position?
+            for i in range(len(v)):
+                if not cls(v[i]):
+                    continue
+                w = synth(name, v, [(i, c2)], opts)
+                if w and c2 in w and w not in seen:
+                    seen.add(w)
+                    out.append(w)
+    return out
+
+
+SPECIAL_DATES = [('02', '29'), ('02', '30'), ('02', '28'), ('04', '31'), ('12', '31'), ('01', '01'), ('00', '00'), ('00', '01'),
+                 ('13', '01'), ('06', '00'), ('02', '00')]
+
+
+def date_variants(name, slices, **opts):
+    """Strategy: valid numbers of a date-carrying format whose date digits were overwritten with calendar corner cases
+    (29/30 February, day 31 of short months, month/day 00, century/gender offsets added to month or day) and whose
+    check digits were then repaired. slices = (yy slice, mm slice, dd slice) of the canonical form."""
+    p = pool(name, **opts)
+    m = core.number_modules()[name]
+    ysl, msl, dsl = slices
+
+    @st.composite
+    def s(draw):
+        v = draw(st.sampled_from(p))
+        mm, dd = draw(st.one_of(st.sampled_from(SPECIAL_DATES), st.tuples(
+            st.integers(1, 12).map(lambda x: '%02d' % x), st.integers(1, 31).map(lambda x: '%02d' % x))))
+        yy = draw(st.sampled_from(['00', '01', '04', '96', '97', '99', '85', v[ysl][-2:]]))
+        moff = draw(st.sampled_from([0, 0, 0, 20, 40, 50, 70]))
+        doff = draw(st.sampled_from([0, 0, 0, 40]))
+        if not (mm.isdigit() and dd.isdigit()):
+            return v
+        mm2 = '%02d' % ((int(mm) + moff) % 100)
+        dd2 = '%02d' % ((int(dd) + doff) % 100)
+        w = list(v)
+        if not all(c.isdigit() for c in v[msl] + v[dsl]):
+            return v
+        w[msl] = list(mm2)
+        w[dsl] = list(dd2)
+        if v[ysl].isdigit():
+            w[ysl] = list((v[ysl][:-2] + yy)[-len(v[ysl]):])
+        w = ''.join(w)
+        if len(w) != len(v):
+            return v
+        r = synth(name, w, [], opts)
+        if r is None:
+            stats['date_variant_unrepairable'] += 1
+            return v
+        o = core.out(m.validate, r, **opts)
+        if o[0] == 'ok' and isinstance(o[1], str):
+            stats['date_variant_ok'] += 1
+            return o[1]
+        return v
+    return s()
 
 
 def valid_numbers(name, raw_fraction=4, **opts):
@@ -154,7 +240,11 @@ def valid_numbers(name, raw_fraction=4, **opts):
         muts = []
         for _ in range(k):
             i = draw(st.sampled_from(idx))
-            muts.append((i, draw(st.sampled_from(cls(v[i])))))
+            if draw(st.integers(0, 11)) == 0:
+                # symbols that a few alphabets admit in place of a letter or digit (ie.vat + *, cusip * @ #, mx.rfc &)
+                muts.append((i, draw(st.sampled_from(SYMBOLS))))
+            else:
+                muts.append((i, draw(st.sampled_from(cls(v[i])))))
         w = synth(name, v, muts, opts)
         if w is None:
             stats['synth_fail'] += 1
